@@ -6,6 +6,28 @@ COMMON_NOTE = ('Trusted: Coq 8.16.1 kernel + VM (vm_compute, no native_compute),
                'CPython/pydicom as the execution substrate of the implementation.')
 
 CHECKS = {
+    'C01': dict(
+        text=('Theorem C01_roundtrip (Coq, no axioms): for EVERY well-formed PDU value p of the model of pdu.py/'
+              'userdataitems.py (all 7 PDU types, any number and order of items, presentation contexts, transfer '
+              'syntaxes, sub-items of all 9 kinds in any order, any in-range field values, PDVs of any size), '
+              'decode_as (type p) (encode p) = Ok p, hence re-encoding reproduces the bytes (C01_reencode). The model '
+              'mirrors the code\'s look-ahead stream parser including short reads and failure kinds; it is tied to '
+              'the code on every run by correspondence obligations (encode bytes, total_length, decode result on '
+              '~1300 structured values incl. all 81 sub-item adjacencies; decode outcome on ~5000 malformed streams), '
+              'each checked by vm_compute in the kernel, plus the round-trip oracle on the implementation itself.'),
+        technique='Coq proof by structural induction over items/sub-items + model/implementation correspondence by vm_compute',
+        design_ref='DESIGN.md section 6, C01',
+        note=COMMON_NOTE + ' Text fields are modelled as UTF-8 byte strings; str.strip() only for ASCII white space.'),
+    'C02': dict(
+        text=('Theorems C02_emitted / C02_accepted / C02_layout_injective (Coq, no axioms): for every well-formed PDU '
+              'the model encoder equals an independent declarative PS3.8/PS3.7 layout in which every length field is '
+              'computed from the bytes it governs, total_length = bytes emitted, every layout of a well-formed value '
+              '(any sub-item order, unknown types, many TS / PDVs) decodes to that value, and the layout is injective. '
+              'Per run the implementation\'s bytes are compared with the layout and read back by a strict '
+              'length-driven reference parser inside Coq.'),
+        technique='Coq proof (encoder = declarative layout; lengths by induction) + correspondence + strict reference parser as oracle',
+        design_ref='DESIGN.md section 6, C02',
+        note=COMMON_NOTE + ' The strict parser is an executable oracle (its own round trip is validated per run, not proved).'),
     'C06': dict(
         text=('Theorem C06_fragmentation (Coq, no axioms): for ALL command-set bytes, data-set bytes, context ids and '
               'every maximum PDU length m >= 7 (unbounded, 2^32-1 included) the model of chunks/fragment/'
